@@ -31,6 +31,11 @@ let parse_filter toks = match toks with
   | ["name"; s] -> FName (cstr (dec_str s))
   | ["type"; s] -> FType (cstr (dec_str s))
   | "ids" :: _ :: refs -> FIds (OLst.map parse_ref refs)
+  | ["typei"; s] -> FTypeLoose (cstr (dec_str s))
+  | ["typere"; s] -> FType (cstr (dec_str s))       (* TypeFilter(boost::regex(str)): regex_match, as the exact string form *)
+  | ["meta"; r] -> FMeta (parse_ref r)
+  | ["hassrc"; r] -> FHasSrc (parse_ref r)
+  | ["default"] | ["nofilter"] -> FAll
   | _ -> failwith "bad filter"
 let parse_depth d = if d = "max" then size_max else z_of_string d
 
@@ -44,6 +49,17 @@ let ent_id (t : ostring) : string =
   | 'M' -> if k < 0 || k >= !nmtag || entity_by_id !st (mtag_id k) = None then raise Dead else mtag_id k
   | 'R' -> ignore (live_src k); src_id k
   | _ -> failwith "bad entity"
+
+(* id of any entity kind by ordinal, whether or not it (still) exists: an unknown one matches nothing *)
+let ent_ref (t : ostring) : string = match t.[0] with
+  | 'A' -> arr_id (tail t) | 'T' -> tag_id (tail t) | 'M' -> mtag_id (tail t) | 'B' -> blk_id (tail t) | 'P' -> prop_id (tail t)
+  | _ -> parse_ref t
+let parse_efilter toks = match toks with
+  | ["all"] -> EAll
+  | ["id"; r] -> EId (ent_ref r)
+  | ["meta"; r] -> EMeta (parse_ref r)
+  | ["srcf"; r] -> ESrc (parse_ref r)
+  | _ -> failwith "bad entity filter"
 
 let show_ords (l : int olist) = OStr.concat " " (ostring_of_int (OLst.length l) :: OLst.map ostring_of_int l)
 let ordered l = "OK " ^ show_ords l
@@ -114,26 +130,65 @@ let handle toks =
   | ["delsec"; s] -> ignore (live_sec (num s)); st := delete_section !st (sec_id (num s)); "OK -"
   | ["delsrc"; s] -> ignore (live_src (num s)); st := delete_source !st (src_id (num s)); "OK -"
   (* ---- queries ---- *)
+  | "enum" :: start :: flt ->
+    let k = parse_filter flt in let f = apply_filter (!st).f_sections k and g = spec_filter k in
+    if start = "file" then answer (Ok (file_sections f (!st).f_sections)) tids (as_set (tids (filter g (!st).f_sections)))
+    else if start.[0] = 'S' then let (t, _) = live_sec (tail start) in
+      answer (Ok (section_sections f t)) tids (as_set (tids (filter g (kids t))))
+    else if start.[0] = 'B' then let b = live_blk (tail start) in
+      answer (Ok (block_sources f b)) tids (as_set (tids (filter g b.b_sources)))
+    else let (t, _) = live_src (tail start) in
+      answer (Ok (source_sources f t)) tids (as_set (tids (filter g (kids t))))
+  | ("enuma" | "enumt" | "enumm" as w) :: b :: flt ->
+    let blk = live_blk (tail b) in
+    let k = parse_efilter flt in
+    let f = apply_efilter (!st).f_sections k and g = spec_efilter k in
+    (match w with
+     | "enuma" -> answer (Ok (block_dataArrays f blk)) eids (as_set (eids (filter g blk.b_arrays)))
+     | "enumt" -> answer (Ok (block_tags f blk)) eids (as_set (eids (filter g blk.b_tags)))
+     | _ -> answer (Ok (block_multiTags f blk)) eids (as_set (eids (filter g blk.b_mtags))))
+  | "enumb" :: flt ->
+    let k = parse_efilter flt in
+    let bords l = OLst.map (fun b -> ord_of b.b_id) l in
+    answer (Ok (file_blocks (apply_bfilter (!st).f_sections k) !st)) bords (as_set (bords (filter (spec_bfilter k) (!st).f_blocks)))
+  | "enump" :: s :: flt ->
+    let (t, _) = live_sec (num s) in
+    let pords l = OLst.map (fun (i, _) -> ord_of i) l in
+    let f = (match flt with
+        | ["all"] -> (fun _ -> true)
+        | ["id"; r] -> propIdFilter (ent_ref r)
+        | ["name"; n] -> propNameFilter (cstr (dec_str n))
+        | _ -> failwith "bad property filter") in
+    answer (Ok (section_properties f t)) pords (as_set (pords (filter f (label t).n_props)))
+  | [("refarrays_in" | "reftags_in" | "refmtags_in" | "refsources_in" as w); s; b] ->
+    ignore (live_sec (num s));
+    let ob = if b = "none" then None else Some (live_blk (tail b)) in
+    let id = sec_id (num s) in
+    (match w with
+     | "refarrays_in" -> answer (Ok (section_referringDataArrays_in !st id ob)) eids (as_set (eids (spec_ref_ents_block (fun b -> b.b_arrays) id ob)))
+     | "reftags_in" -> answer (Ok (section_referringTags_in !st id ob)) eids (as_set (eids (spec_ref_ents_block (fun b -> b.b_tags) id ob)))
+     | "refmtags_in" -> answer (Ok (section_referringMultiTags_in !st id ob)) eids (as_set (eids (spec_ref_ents_block (fun b -> b.b_mtags) id ob)))
+     | _ -> answer (section_referringSources_opt !st id ob) tids (as_set (tids (spec_ref_sources_block id ob))))
   | "findsec" :: start :: d :: flt ->
-    let f = apply_filter (parse_filter flt) in
+    let k = parse_filter flt in let f = apply_filter (!st).f_sections k and g = spec_filter k in
     let roots = (!st).f_sections in
     if start = "file" then
-      let spec = if d = "max" then flat_map (fun r -> spec_source_all f r) roots else spec_file_find f (parse_depth d) roots in
+      let spec = if d = "max" then flat_map (fun r -> spec_source_all g r) roots else spec_file_find g (parse_depth d) roots in
       answer (file_findSections f (parse_depth d) roots) tids (as_set (tids spec))
     else
       let (t, _) = live_sec (tail start) in
-      answer (section_findSections f (parse_depth d) t) tids (ordered (tids (spec_section_find f (parse_depth d) t)))
+      answer (section_findSections f (parse_depth d) t) tids (ordered (tids (spec_section_find g (parse_depth d) t)))
   | "findsrc" :: start :: d :: flt ->
-    let f = apply_filter (parse_filter flt) in
+    let k = parse_filter flt in let f = apply_filter (!st).f_sections k and g = spec_filter k in
     if start.[0] = 'B' then
       let b = live_blk (tail start) in
-      let spec = if d = "max" then flat_map (fun r -> spec_source_all f r) b.b_sources else spec_block_find f (parse_depth d) b.b_sources in
+      let spec = if d = "max" then flat_map (fun r -> spec_source_all g r) b.b_sources else spec_block_find g (parse_depth d) b.b_sources in
       answer (block_findSources f (parse_depth d) b.b_sources) tids (as_set (tids spec))
     else
       let (t, _) = live_src (tail start) in
-      answer (source_findSources f (parse_depth d) t) tids (ordered (tids (spec_source_find f (parse_depth d) t)))
+      answer (source_findSources f (parse_depth d) t) tids (ordered (tids (spec_source_find g (parse_depth d) t)))
   | "related" :: s :: flt ->
-    let f = apply_filter (parse_filter flt) in
+    let f = apply_filter (!st).f_sections (parse_filter flt) in
     let (t, anc) = live_sec (num s) in
     answer (section_findRelated f anc t) tids (as_set (tids (related_spec f anc t)))
   | ["inherited"; s] ->
